@@ -190,6 +190,10 @@ structure Reader where
   view : View := {}
   cacheGen : Nat := 0
   cache : List Nat := List.replicate N 0
+  /-- ghost: log index of the generation message that supplied the current `g1` -/
+  g1Idx : Nat := 0
+  /-- ghost: log index of the generation message of the last accepted snapshot -/
+  acceptedIdx : Nat := 0
 deriving Repr, BEq, DecidableEq, Inhabited
 
 def assemble (got : List (Nat Ã— Nat)) : List Nat :=
@@ -212,10 +216,10 @@ def rStep (a : Ann) (log : Log) (r : Reader) (pickCell pickMsg : Nat) : Reader Ã
     if v = 0 then ({ r with pc := .idle, view := vw }, some (.ok r.cache), tok)
     else ({ r with pc := .gen1, view := vw }, none, tok)
   | .gen1 =>
-    let (g, _, vw) := load log r.view .gen a.rGen1 pickMsg
+    let (g, j, vw) := load log r.view .gen a.rGen1 pickMsg
     let tok := s!"L:g:{repr a.rGen1}:{g}"
     if g = 0 âˆ¨ g = r.cacheGen âˆ¨ g % 2 = 1 then ({ r with pc := .idle, view := vw }, some (.ok r.cache), tok)
-    else ({ r with pc := .copy g RETRIES (List.range N) [], view := vw }, none, tok)
+    else ({ r with pc := .copy g RETRIES (List.range N) [], view := vw, g1Idx := j }, none, tok)
   | .copy g1 retries todo got =>
     match todo[min pickCell (todo.length - 1)]? with
     | none => ({ r with pc := afterCopy a g1 retries got }, none, "copy-empty")
@@ -229,15 +233,16 @@ def rStep (a : Ann) (log : Log) (r : Reader) (pickCell pickMsg : Nat) : Reader Ã
     let o := a.rFence.getD .relaxed
     ({ r with pc := .gen2 g1 retries got, view := fenceAcq r.view o }, none, s!"F:{repr o}")
   | .gen2 g1 retries got =>
-    let (g2, _, vw) := load log r.view .gen a.rGen2 pickMsg
+    let (g2, j2, vw) := load log r.view .gen a.rGen2 pickMsg
     let tok := s!"L:g:{repr a.rGen2}:{g2}"
     if g1 = g2 then
       let cells := assemble got
-      ({ r with pc := .idle, view := vw, cacheGen := g1, cache := cells }, some (.ok cells), tok)
+      ({ r with pc := .idle, view := vw, cacheGen := g1, cache := cells, acceptedIdx := r.g1Idx }, some (.ok cells), tok)
     else
       let g1' := if g2 % 2 = 0 then g2 else g1
+      let i' := if g2 % 2 = 0 then j2 else r.g1Idx
       if retries â‰¤ 1 then ({ r with pc := .idle, view := vw }, some .errNotInit, tok)
-      else ({ r with pc := .copy g1' (retries - 1) (List.range N) [], view := vw }, none, tok)
+      else ({ r with pc := .copy g1' (retries - 1) (List.range N) [], view := vw, g1Idx := i' }, none, tok)
 
 /-- start of a `snapshot()` call -/
 def Reader.call (r : Reader) : Reader := { r with pc := .version }
